@@ -199,13 +199,15 @@ def stage_mech_oneiter(chk):
 
 
 def check_C01(chk):
-    bins = vlib.build_harness(["dbg-native", "dbg-generic"])
+    bins = vlib.build_harness(["dbg-native", "dbg-generic", "rel-native"])
     stage_bvref(chk, 12 if chk.thorough else 9)
     stage_mech_plainbv(chk, 14 if chk.thorough else 11)
     if chk.thorough:
         stage_layout_drift(chk, bins)
     # both in-word select implementations: BMI2 (native) and the portable table-driven one (generic)
     stage_gen_bv(chk, bins, ["plain"], 12 if chk.thorough else 10, FAMILY_THOROUGH if chk.thorough else FAMILY_QUICK, variants=("dbg-native", "dbg-generic"))
+    # beyond 2^32 bits: the counts a plain bitvector caches (optimized build)
+    stage_trace(chk, bins, "giant", "TraceGiant", invariants=("CountsOK",), variant="rel-native")
     # conversion from a multiset: the plain bitvector holds the distinct positions, each counted once
     msp, rms = vlib.generate_cases(chk.work, "GenMS_conv", "GenMS", cfg_consts({"MaxU": 5 if chk.thorough else 4, "MaxVals": 5 if chk.thorough else 4}) + GEN_TAIL)
     chk.add_tlc(rms, "GenMS multisets as conversion sources", {"behaviours": len(rms.replay_lines)})
@@ -218,7 +220,12 @@ def check_C01(chk):
                maxlen=4 if chk.thorough else 3, scales=(1, 3, 64, 65), big_scales=(130, 1100) if chk.thorough else (1100,), big_stride=3 if chk.thorough else 11)
     total = stage_trace(chk, bins, "plain", "TraceBV", invariants=("ObjWellFormed",), seeds=6 if chk.thorough else 1)
     chk.cov["regimes"] = total
-    if not chk.violations and (total.get("long_one_hits", 0) == 0 or total.get("long_zero_hits", 0) == 0):
+    if total.get("layout_unreadable"):
+        # the regime counters read the select structures out of the serialized object; if the bytes do not have the documented layout
+        # (C07's business) the counters are unavailable and the vacuity guard cannot be applied
+        vlib.log("MODEL-DRIFT property=C01: the serialized select structures could not be read with the documented layout (%d objects); regime counters unavailable" % total["layout_unreadable"])
+        chk.cov.setdefault("model_drift", []).append({"stage": "plain trace regime counters", "unreadable": total["layout_unreadable"]})
+    elif not chk.violations and (total.get("long_one_hits", 0) == 0 or total.get("long_zero_hits", 0) == 0):
         raise ToolError("vacuous: no validated select query inside a long superblock (ones=%s zeros=%s)" % (
             total.get("long_one_hits"), total.get("long_zero_hits")))
     return chk.finish(rule="cases = (bit vector content, query, argument); generated exhaustively by TLC for all contents "
@@ -763,6 +770,8 @@ def check_C12(chk):
     stage_life(chk, bins, "C12", ["writer:"], ops='{"mut", "to", "writer"}', kinds='{"raw", "int"}', maxlen=4 if chk.thorough else 3, scales=(1, 3, 64, 65, 130), big_scales=(1100,), big_stride=5)
     chk.cov["exhaustive"] = True
     stage_trace(chk, bins, "writer", "TraceWriter", seeds=2 if chk.thorough else 1)
+    # writers under a file-size limit: a close that failed does not turn into a success when it is asked again (the file is incomplete)
+    stage_trace(chk, bins, "wlimit", "TraceFaults", seeds=1)
     return chk.finish(rule="cases = (writer kind, item width, buffer size, push sequence, ending); raw: every history of 3 pushes over bits and 0..64-bit "
                            "integers per buffer size (a 64-bit buffer is exactly full / over-full by k / straddled within 3 pushes); int: every push "
                            "count up to several buffer fills per (width, buffer); distinct = distinct (configuration, history prefix)")
